@@ -217,7 +217,9 @@ def gradient( func, nvar, n=1, dx=1e-3, order=3 ):
 
     # Evaluate n-th partial derivative w.r.t. vpos variable at points
     def partialDerivative( func, vpos=0, n=n, points=[ ] ):
-        args = points[ : ]
+        # A float copy: points may be the caller's numpy array ( a slice would be a view
+        # and the shifted abscissae would be written into it ) or an integer array
+        args = np.array( points, dtype=float )
 
         def wraps( x ):
             args[ vpos ] = x
